@@ -361,3 +361,28 @@ def read_sim_traces(prefix_dir):
         if beh:
             out.append(beh)
     return out
+
+
+def run_apalache(module, args, timeout=900, cwd=None):
+    """apalache-mc check <args> <module>; returns {"ok": bool, "outcome": str, "wall_s": float, "tail": str}.
+    Output goes to a scratch directory that is removed afterwards."""
+    import shutil
+    import subprocess
+    import tempfile
+    import time
+    out = tempfile.mkdtemp(prefix="apa-")
+    path = module if os.path.isabs(module) else os.path.join(SPEC_DIR, module)
+    cmd = ["apalache-mc", "check", f"--out-dir={out}"] + list(args) + [path]
+    t0 = time.time()
+    try:
+        pr = subprocess.run(cmd, cwd=cwd or SPEC_DIR, capture_output=True, text=True, timeout=timeout)
+        txt = pr.stdout + pr.stderr
+        ok = "EXITCODE: OK" in txt
+        outcome = "ok" if ok else ("error" if "EXITCODE: ERROR" in txt else "failed")
+    except subprocess.TimeoutExpired:
+        txt, ok, outcome = "timeout", False, "timeout"
+    except FileNotFoundError:
+        txt, ok, outcome = "apalache-mc not found", False, "missing"
+    finally:
+        shutil.rmtree(out, ignore_errors=True)
+    return {"ok": ok, "outcome": outcome, "wall_s": round(time.time() - t0, 1), "tail": "\n".join(txt.splitlines()[-8:])}
